@@ -1,6 +1,6 @@
 """C11 - decided by spec/core/Geoh5Core.tla (TLC) + replay of the exported state graph (harness/core_replay.py)."""
 from ..core_check import make
 
-run, replay = make("C11", ["C11_quick.cfg"], ["C11_thorough.cfg", ("Sim_all.cfg", {"num": 150, "depth": 30})],
+run, replay = make("C11", ["C11_quick.cfg", "C11ro_quick.cfg"], ["C11_thorough.cfg", ("Sim_all.cfg", {"num": 150, "depth": 30})],
                    "Close (close(), with-exit, exception escaping the with-block) at every reachable state, calls on the closed workspace, re-open: open HDF5 identifiers counted after every close, dedicated error class required, file compared with the specification", neg=None,
                    concat=[("DrillholeConcatExportFlags.cfg", 21, None)])
